@@ -8,14 +8,15 @@
 package main
 
 import (
-	"reflect"
 	"encoding/json"
 	"fmt"
 	"os"
 	"os/exec"
 	"path/filepath"
+	"reflect"
 	"sort"
 	"strings"
+	"sync/atomic"
 
 	"tags.cncf.io/container-device-interface/pkg/cdi"
 	"verif/mc/dirmodel"
@@ -88,6 +89,9 @@ func sameDirConflict(a, b dirmodel.Kind) bool {
 
 // check evaluates the oracle on one cache in one state. refreshErr is the error of the
 // Refresh that produced the state (nil pointer = not applicable: construction).
+// harnessRepairs counts the times a population had to be written again because the disk did not hold it
+var harnessRepairs atomic.Int64
+
 func check(r *hx.Run, w *world, s *state, c *cdi.Cache, refreshed bool, refreshErr error, repairs []string) (held bool) {
 	defer func() {
 		if p := recover(); p != nil {
@@ -125,7 +129,24 @@ func check(r *hx.Run, w *world, s *state, c *cdi.Cache, refreshed bool, refreshE
 		return false
 	}
 	if ok, what, detail := obs.Check(want); !ok {
-		return fail("isolation:"+what, detail)
+		// before the library is blamed: is the disk in the state the model describes? (seen once, on a
+		// machine running several sweeps at once: a slot that did not hold what had been written to it)
+		if same, which := s.tree.DiskMatches(w.root); !same {
+			harnessRepairs.Add(1)
+			fmt.Printf("NOTE: the harness found slot %s not in the modelled state; rewriting the population and asking again\n", which)
+			for d, fs := range s.tree.Files {
+				for n, k := range fs {
+					_ = dirmodel.WriteSlot(w.root, d, n, k)
+				}
+			}
+			_ = c.Refresh()
+			obs = dirmodel.Observe(c)
+			if ok2, what2, detail2 := obs.Check(want); !ok2 {
+				return fail("isolation:"+what2, detail2)
+			}
+		} else {
+			return fail("isolation:"+what, detail)
+		}
 	}
 	// the caller owns the slices and maps it was handed (Observe overwrote / cleared them): the
 	// report and the listings must not follow
@@ -404,6 +425,7 @@ func main() {
 
 	r.ParallelL(int64(len(states)), func(i int64, l *hx.Local) { explore(states[i], l) })
 	lateUsable(r, filepath.Join(base, "late"))
+	r.Extra["populations_rewritten_by_the_harness"] = harnessRepairs.Load()
 	faultPart(r)
 	r.Rule = fmt.Sprintf("states = directory lists of length 1..3 with every position in %v x per-directory populations of the slots %v over %v without same-directory conflicts (%d populations per directory for <=1 good directory, a %d-element reduced set for more); "+
 		"transitions = every single repair (remove or rewrite a bad file, create a missing directory with a valid file) followed by Refresh on the same cache, to depth 2. "+
